@@ -428,3 +428,21 @@ def directive_argument_soup(schema):
                     out.append(f'{head} {{ {lst} @stream({arg}: {val}) }}')
             out.append(f'{head} {{ ... @defer(label: {val}, if: {val}) {{ {sel} }} }}')
     return out
+
+
+def oneof_literal_soup():
+    """Documents over the rich schema that put well- and ill-formed literals at OneOf positions (argument, list item, nested
+    field, variable default): none, one, several, null, unknown members."""
+    lits = ['{}', '{nope: 1}', '{nope: 1, other: 2}', '{byId: null}', '{byId: 1}', '{byId: 1, byName: "n"}', '{byId: 1, nope: 2}', 'null', '1',
+            '{byFilter: {}}', '{byFilter: {req: true}}', '{byFilter: null}', '[]', '$v', '{byId: $i}', '{byName: $i}']
+    out = []
+    for x in lits:
+        head = 'query Q($v: Pick, $i: ID)' if '$' in x else 'query Q'
+        out.append(f'{head} {{ byPick(p: {x}) }}')
+        out.append(f'{head} {{ byPick(p: {{byId: 1}}, l: [{x}]) }}')
+        out.append(f'{head} {{ byPick(p: {{byId: 1}}, l: {x}) }}')
+        out.append(f'{head} {{ me {{ echo(pick: {x}) }} }}')
+        if '$' not in x:
+            out.append(f'query Q($d: Pick = {x}) {{ byPick(p: {{byId: 1}}, d: $d) }}')
+            out.append(f'query Q($d: [Pick!] = [{x}]) {{ byPick(p: {{byId: 1}}, l: $d) }}')
+    return out
